@@ -33,6 +33,16 @@ def replay_cases(ctx):
     return [c]
 
 
+def declared_vs_read(c, o):
+    from .. import parse_inkfem
+    from . import C10
+    try:
+        s = parse_inkfem.parse(c["Text"])
+    except Exception:
+        return []       # a layout the minimal independent parser does not cover: nothing to compare with
+    return ["the structure handed to the solver is not the one the file declares: " + f for f in C10.expect(s, o)]
+
+
 def run(ctx, spec):
     rng = random.Random(ctx.seed)
     res = C.prove(ctx, spec["prop_file"], extra_targets=["Corr/Compare.vo"])
@@ -64,7 +74,12 @@ def run(ctx, spec):
             ctx.violation("preprocessing panicked: " + o["Pre"][-1]["Panic"][:200], {"case": c, "panic": o["Pre"][-1]["Panic"]})
             concrete += 1
             continue
-        fails = spec["oracle"](c, o)
+        fails = []
+        if spec.get("text_fidelity"):
+            # the property speaks about the structure the FILE describes: what the implementation's reader
+            # produced is first compared, field for field, with an independent reading of the same text
+            fails = declared_vs_read(c, o)
+        fails = fails or spec["oracle"](c, o)
         if fails:
             if concrete < 3:
                 ctx.violation("%s fails on the implementation: %s" % (ctx.prop, "; ".join(fails[:3])),
